@@ -29,8 +29,8 @@ RULE = ('generated (m<=7, t, PRSS on/off) x field (primes 2..2^521-1 incl. signe
         '(degree <= t, constant term = reference value, in the lifted field for lifted types); non-trivial = t>=1 and '
         'a result that depends on a secret input dealt by a party; distinct by case hash')
 ASSUMPTIONS = ['division/negative powers only with non-zero divisor (reciprocal of 0 is undefined and does not terminate)',
-               'public integer operands on lifted types are in range(p); public field-element operands and public '
-               'operands of bitwise operators are not generated (statement speaks of secure elements)',
+               'public integer operands on lifted types are in range(p); public field-element operands only on non-lifted '
+               'types; public operands of bitwise operators are not generated (statement speaks of secure elements)',
                'to_bits on signed prime fields only for values <= p//2 (signed and unsigned reading agree)',
                'non-prime fields with m >= order and t >= 1 are refused by mpyc (assert marked TODO): not generated',
                'shares are read after the computation of each value (values are immutable once computed)']
@@ -45,7 +45,7 @@ F04B = 'F04b'
 
 
 def budget(tier):
-    return dict(shards=16, examples=250 if tier == 'quick' else 3000)
+    return dict(shards=16, examples=150 if tier == 'quick' else 3000)
 
 
 # ------------------------------------------------------------------------------------------- field helpers
@@ -166,7 +166,7 @@ def _case(draw, tier):
     ops = []
     menu = ['add', 'sub', 'mul', 'mul', 'div', 'div', 'pow', 'pow', 'neg', 'eq', 'ne', 'refl', 'refl', 'alias']
     if p == 2:
-        menu += ['and', 'or', 'xor', 'inv', 'and', 'or', 'inv']
+        menu += ['and', 'or', 'xor', 'inv', 'and', 'or', 'xor', 'inv']
     else:
         menu += ['bit1']
     if bits_ok:
@@ -189,10 +189,17 @@ def _case(draw, tier):
             rec = ['tobits', a, None] if which == 'tobits' else ['rt', a]
         return dict(m=m, t=t, prss=prss, seed=draw(st.integers(0, 2**20)), field=spec, signed=signed, how=how,
                     ops=[rec])
+    heavy = 0
     for _ in range(nops):
         op = draw(st.sampled_from(menu))
-        if big and op in ('eq', 'ne', 'tobits', 'rt') and (not thorough or draw(st.integers(0, 3))):
-            op = draw(st.sampled_from(['mul', 'div', 'add', 'pow']))  # ~|q| multiplications each: keep rare
+        if big and op in ('eq', 'ne', 'tobits', 'rt'):
+            # ~|q| (eq) resp. ~|q| log |q| (to_bits) secure multiplications each: thorough tier only, at most one per
+            # case, to_bits only up to 127-bit fields (a 521-bit to_bits costs ~15 s of CPU at m=5)
+            if (not thorough or heavy or draw(st.integers(0, 3))
+                    or (op in ('tobits', 'rt') and q.bit_length() > 130)):
+                op = draw(st.sampled_from(['mul', 'div', 'add', 'pow']))
+            else:
+                heavy += 1
         if lifted and p > 2 and op in ('tobits', 'rt'):
             op = 'frombits'  # known finding F04a: generated separately (known_only)
         if op in ('add', 'sub', 'mul', 'eq', 'ne'):
@@ -264,9 +271,7 @@ def _case(draw, tier):
             k = draw(st.sampled_from([l, l, max(1, l - 1), 1, draw(st.integers(1, l))]))
             k = min(k, 70)
             bits = [draw(_operand(spec, m, lifted, ['s', 's', 'c'], bit=True)) for _ in range(k)]
-            if lifted and p > 2:
-                for b in bits[1:]:
-                    b[-1] = 0  # known finding F04b (a set bit above bit 0): generated separately (known_only)
+            # (F04b, from_bits on lifted odd prime fields, is fixed in /repo: 34ba303 -- generated freely again)
             ops.append(['frombits', bits])
     return dict(m=m, t=t, prss=prss, seed=draw(st.integers(0, 2**20)), field=spec, signed=signed, how=how, ops=ops)
 
@@ -691,4 +696,9 @@ def run_case(case):
                                known=cls)
             return out
     secret = any(a[0] == 's' for rec in case['ops'] for a in _operands(rec))
+    if n:
+        # C11 for field types: every one of the n checked values had all m own-shares interpolated
+        labels.append('c11-shares-interpolated' + ('' if t >= 1 else '-t=0'))
+        if lifted:
+            labels.append('c11-shares-interpolated-lifted-field')
     return Outcome(True, labels=labels, nontrivial=t >= 1 and secret, n=max(n, 1))
